@@ -962,6 +962,8 @@ class UniformGrid(_HyperRectangleGrid):
         else:
             raise ValueError("`which` parameter was not the standard options.")
 
+        # The closest grid point to a point outside the grid lies on the boundary of the grid.
+        coord = np.clip(coord, 0, np.array(self.shape) - 1)
         # Convert indices (i, j, k) into index.
         index = self.coordinates_to_index(coord)
 
